@@ -140,6 +140,12 @@ class ExprMixin:
         return nf.sym(name)
 
     def target_value(self, tgt, name):
+        if isinstance(tgt, ClassInfo):
+            # class X(NamedTuple): a: T; b: T  - a tuple whose items answer to the annotated names
+            from .interp import namedtuple_fields
+            fields = namedtuple_fields(tgt.module, tgt.name)
+            if fields:
+                return Const(('namedtuple', tgt.name, tuple(fields)))
         if isinstance(tgt, (FuncInfo, ClassInfo)):
             return Const(tgt)
         k = tgt[0]
